@@ -387,3 +387,33 @@ func VerifC04V6Separators() {
 	b = c04Tail(b, "ip6.arpa")
 	c04CheckAccepted(string(b))
 }
+
+// VerifC04V6Long: 1..2 extra labels (one arbitrary ASCII byte each) in front
+// of a full 32-nibble ip6.arpa name, and the same name with the first 1..2
+// nibble labels missing: lengths 68..76 around the only valid length 72.
+func VerifC04V6Long() {
+	var b []byte
+	skip := 0
+	switch verifrt.Choice(3) {
+	case 0:
+		for k := 1 + verifrt.Choice(2); k > 0; k-- {
+			c := verifrt.Byte()
+			verifrt.Assume(c < 0x80 && c != 'x' && c != '.')
+			b = append(b, c, '.')
+		}
+	case 1:
+		skip = 1 + verifrt.Choice(2)
+	}
+	for i := skip; i < 32; i++ {
+		if i == skip {
+			c := verifrt.Byte()
+			verifrt.Assume(c < 0x80 && c != 'x' && c != '.')
+			b = append(b, c, '.')
+
+			continue
+		}
+		b = append(b, "0123456789abcdefABCDEF"[(i*7)%22], '.')
+	}
+	b = c04Tail(b, "ip6.arpa")
+	c04CheckAccepted(string(b))
+}
